@@ -187,6 +187,12 @@ def enable_library_logging():
         logging.getLogger(name).setLevel(logging.DEBUG)
 
 
+def real_logger(name='sdc.device.httpsrv'):
+    """a LoggerAdapter of the library (formats eagerly) where the code under test expects server.logger / self._log"""
+    from sdc11073 import loghelper
+    return loghelper.get_logger_adapter(name)
+
+
 def lib():
     enable_library_logging()
     import sdc11073.definitions_sdc  # noqa: F401
@@ -362,7 +368,7 @@ class CaptureConnection:
 
 
 def mk_soap_client(L, sup, req_encs, chunk):
-    return L.sc.SoapClient('127.0.0.1:1', 1.0, mock.MagicMock(), None, mock.MagicMock(), mock.MagicMock(),
+    return L.sc.SoapClient('127.0.0.1:1', 1.0, real_logger('sdc.client.soap'), None, mock.MagicMock(), mock.MagicMock(),
                            supported_encodings=sup, request_encodings=req_encs, chunk_size=chunk)
 
 
@@ -379,39 +385,129 @@ def impl_send(L, sup, req_encs, chunk, xml):
     return canon_msg(h, body), (h, body)
 
 
+class WireCapture:
+    """peer on a localhost socket: keeps the raw bytes of every request it receives, answers an empty 200 (used for clients whose
+    HTTP layer cannot be replaced by a recorder: aiohttp decides itself which framing headers go on the wire)"""
+    def __init__(self):
+        import socket
+        self.srv = socket.socket()
+        self.srv.bind(('127.0.0.1', 0))
+        self.srv.listen(20)
+        self.port = self.srv.getsockname()[1]
+        self.requests = []
+        threading.Thread(target=self._loop, daemon=True).start()
+
+    def _loop(self):
+        while True:
+            try:
+                conn, _ = self.srv.accept()
+            except OSError:
+                return
+            threading.Thread(target=self._serve, args=(conn,), daemon=True).start()
+
+    def _serve(self, conn):
+        conn.settimeout(3)
+        data = b''
+        try:
+            while True:
+                while b'\r\n\r\n' not in data:
+                    d = conn.recv(65536)
+                    if not d:
+                        return
+                    data += d
+                head, _, rest = data.partition(b'\r\n\r\n')
+                hl = head.lower()
+                m = re.search(rb'\r\ncontent-length:[ \t]*(\d+)', hl)
+                if b'\r\ntransfer-encoding:' in hl and b'chunked' in hl:
+                    while rfc_chunked(rest) is None:     # (a body may contain b'0\\r\\n\\r\\n' as data: only a complete parse ends it)
+                        d = conn.recv(65536)
+                        if not d:
+                            break
+                        rest += d
+                    body, data = rest, b''
+                elif m:
+                    n = int(m.group(1))
+                    while len(rest) < n:
+                        d = conn.recv(65536)
+                        if not d:
+                            break
+                        rest += d
+                    body, data = rest[:n], rest[n:]
+                else:
+                    body, data = rest, b''
+                self.requests.append((head, body))
+                conn.sendall(b'HTTP/1.1 200 OK\r\nContent-Length: 0\r\n\r\n')
+        except OSError:
+            pass
+        finally:
+            conn.close()
+
+
+_WIRE = None
+
+
+def wire_capture():
+    global _WIRE
+    if _WIRE is None:
+        _WIRE = WireCapture()
+    return _WIRE
+
+
+def parse_head(head):
+    lines = head.decode('latin-1').split('\r\n')
+    h = {}
+    for ln in lines[1:]:
+        k, _, v = ln.partition(':')
+        h.setdefault(k.strip().lower(), v.strip())
+    return lines[0], h
+
+
+def framing_problem(h, body):
+    """what a strict peer has to say about the framing of a request that was SENT (RFC 7230 3.3.2 / 3.3.3 / 4.1); h: lower-case names"""
+    te, cl = h.get('transfer-encoding'), h.get('content-length')
+    if te is not None and cl is not None:
+        return f'Content-Length ({cl}) is sent together with Transfer-Encoding ({te}): RFC 7230 3.3.2 forbids it'
+    if te is not None:
+        if te.strip().lower() != 'chunked':
+            return f'Transfer-Encoding {te!r}'
+        if rfc_chunked(body) is None:
+            return 'body is not a chunked-body'
+        return None
+    if cl is None:
+        return 'neither Content-Length nor Transfer-Encoding on a request with body' if body else None
+    if not re.fullmatch(r'[0-9]+', cl) or int(cl) != len(body):
+        return f'Content-Length {cl!r} for {len(body)} body bytes'
+    return None
+
+
 def impl_send_async(L, sup, req_encs, chunk, xml):
-    """the same for SoapClientAsync.async_post_message_to (aiohttp session replaced by a recorder)"""
+    """what SoapClientAsync.async_post_message_to puts on the wire (real aiohttp session to a capturing localhost peer).
+    Returns (canonical message, (header dict, body)) or (error, None)"""
     import asyncio
 
     from sdc11073.pysoap import soapclient_async
-    sent = {}
-
-    class Resp:
-        status, reason = 200, 'OK'
-
-        async def __aenter__(self):
-            return self
-
-        async def __aexit__(self, *a):
-            return False
-
-        async def text(self):
-            return ''
-
-    class Conn:
-        def post(self, path, data=None, headers=None):
-            sent['msg'] = (dict(headers), data)
-            return Resp()
-    cl = soapclient_async.SoapClientAsync('127.0.0.1:1', 1.0, mock.MagicMock(), None, mock.MagicMock(), mock.MagicMock(),
+    cap = wire_capture()
+    n0 = len(cap.requests)
+    cl = soapclient_async.SoapClientAsync(f'127.0.0.1:{cap.port}', 3.0, real_logger('sdc.client.soap'), None, mock.MagicMock(), mock.MagicMock(),
                                          supported_encodings=sup, request_encodings=req_encs, chunk_size=chunk)
-    cl._http_connection = Conn()
     msg = types.SimpleNamespace(p_msg=None, serialize=lambda request_manipulator=None, **k: xml)
-    r = WD.call(lambda: asyncio.run(cl.async_post_message_to('/p', msg)))
+
+    async def go():
+        try:
+            await cl.async_post_message_to('/p', msg)
+        finally:
+            await cl.async_close()
+    r = WD.call(lambda: asyncio.run(go()))
     if r[0] == 'hang':
-        return 'HANG'
-    if 'msg' not in sent:
-        return 'err ' + (err_name(L, r[1]) if r[0] == 'exc' else 'nothing-sent')
-    return canon_msg(*sent['msg'])
+        return 'HANG', None
+    if len(cap.requests) == n0:
+        return 'err ' + (err_name(L, r[1]) if r[0] == 'exc' else 'nothing-sent'), None
+    head, body = cap.requests[-1]
+    _, h = parse_head(head)
+    shown = dict(h)
+    if not sup:
+        shown.pop('accept-encoding', None)   # not set by the library: aiohttp announces its own default (gzip, deflate) then
+    return canon_msg(shown, body), (h, body)
 
 
 def canon_msg(h, wire):
@@ -456,12 +552,15 @@ class EchoComponent:
         self.received.append(request_bytes)
         return 200, 'OK', (request_bytes if self.reply is None else self.reply)
 
+    def do_get(self, headers, path, peer_name):
+        return 200, 'OK', (b'<wsdl/>' if self.reply is None else self.reply), 'text/xml; charset=utf-8'
+
 
 def run_server(L, raw_request, server_sup, server_chunk, component):
     """real DispatchingRequestHandler (http.server parsing, do_POST) on a fake socket; returns the bytes written"""
     disp = types.SimpleNamespace(get_instance=lambda elem: component)
     server = types.SimpleNamespace(dispatcher=disp, supported_encodings=server_sup, chunk_size=server_chunk,
-                                   logger=mock.MagicMock())
+                                   logger=real_logger())
     sock = FakeSock(raw_request)
     L.rh.DispatchingRequestHandler(sock, ('127.0.0.1', 50000), server)
     return b''.join(sock.out)
@@ -483,11 +582,14 @@ def raw_post(headers, body):
     return b'POST /svc HTTP/1.1\r\nHost: verif\r\n' + h + b'\r\n' + body
 
 
-def impl_respond(L, server_sup, server_chunk, ae, body):
-    """response do_POST writes for a request with Accept-Encoding `ae` when the component answers `body`"""
+def impl_respond(L, server_sup, server_chunk, ae, body, method='POST'):
+    """response do_POST / do_GET writes for a request with Accept-Encoding `ae` when the component answers `body`"""
     comp = EchoComponent(reply=body)
-    hdrs = [('Content-Length', '0')] + ([('Accept-Encoding', ae)] if ae is not None else [])
-    r = WD.call(run_server, L, raw_post(hdrs, b''), server_sup, server_chunk, comp)
+    hdrs = ([('Content-Length', '0')] if method == 'POST' else []) + ([('Accept-Encoding', ae)] if ae is not None else [])
+    raw = raw_post(hdrs, b'')
+    if method == 'GET':
+        raw = raw.replace(b'POST /svc ', b'GET /svc?wsdl ', 1)
+    r = WD.call(run_server, L, raw, server_sup, server_chunk, comp)
     if r[0] == 'hang':
         return 'HANG', None
     if r[0] == 'exc':
@@ -562,32 +664,32 @@ def q_in_model_domain(header):
 _QVAL = re.compile(r'^[ \t]*(\d+(\.\d*)?|\.\d+)[ \t]*$', re.ASCII)
 
 
+def _element_accepts(parts):
+    """one list element `coding[;params]`: does it accept? lenient wherever it is not of the shape  coding [ ";" "q=" number ]"""
+    params = parts[1:]
+    if not params:
+        return True
+    if len(params) > 1:
+        return True          # extra parameters: not judged
+    k, eq, v = params[0].partition('=')
+    if k.strip().lower() != 'q' or not eq:
+        return True          # not a weight: not judged
+    if not _QVAL.match(v):
+        return True          # sloppy number: not judged
+    return float(v) > 0
+
+
 def declares_acceptable(header, coding):
-    """Independent reading of the statement: does `header` declare `coding` acceptable with a non-zero quality?
-    Lenient wherever the header is not of the shape  coding [ ";" "q=" number ]: never demands more than the statement."""
+    """Independent reading of the statement after RFC 7231 5.3.4: does `header` declare `coding` acceptable with a non-zero
+    quality? Elements naming the coding decide; "*" only speaks for codings that are not listed explicitly
+    (`gzip;q=0, *` refuses gzip). Never demands more than the statement where an element is sloppy."""
     if not header:
         return False
-    named = False
-    for x in header.split(','):
-        parts = x.split(';')
-        name = parts[0].strip()
-        if name.lower() != coding.lower() and name != '*':
-            continue
-        named = True
-        params = parts[1:]
-        if not params:
-            return True
-        if len(params) > 1:
-            return True          # extra parameters: not judged
-        k, eq, v = params[0].partition('=')
-        if k.strip().lower() != 'q' or not eq:
-            return True          # not a weight: not judged
-        m = _QVAL.match(v)
-        if not m:
-            return True          # sloppy number: not judged
-        if float(v) > 0:
-            return True
-    return False if named else False
+    elements = [x.split(';') for x in header.split(',')]
+    explicit = [p for p in elements if p[0].strip().lower() == coding.lower()]
+    if explicit:
+        return any(_element_accepts(p) for p in explicit)
+    return any(_element_accepts(p) for p in elements if p[0].strip() == '*')
 
 
 # ------------------------------------------------------------------------------------------------ generators
@@ -863,6 +965,7 @@ def run(ctx):
     run_bodies(ctx, L, B)
     run_keepalive(ctx, L, B)
     run_config_histories(ctx, L, B)
+    run_notifications(ctx, L, B)
     run_end_to_end(ctx, L)
     B.flush()
 
@@ -886,8 +989,9 @@ def _run_case(ctx, L, B, case):
         check_chunk_case(ctx, L, B, body, case['n'], model=False)
     elif k == 'accept-encoding':
         check_header_case(ctx, L, B, case['header'], case['supported'])
-        if case.get('via') == 'do_POST':
-            check_respond_case(ctx, L, None, case['supported'], case.get('chunk', 0), case['header'], unhx(case.get('body', '-')) or b'<x/>')
+        if case.get('via') in ('do_POST', 'do_GET'):
+            check_respond_case(ctx, L, None, case['supported'], case.get('chunk', 0), case['header'], unhx(case.get('body', '-')) or b'<x/>',
+                               method=case['via'][3:])
     elif k == 'request':
         check_request_case(ctx, L, B, case['te'], case['cl'], case['ce'], case['sup'], unhx(case['wire']))
     elif k == 'config-history':
@@ -902,6 +1006,18 @@ def _run_case(ctx, L, B, case):
                     host.stop()
                 except Exception:  # noqa: BLE001
                     pass
+    elif k == 'send':
+        xml = unhx(case['xml'])
+        if case.get('async'):
+            _, sent = impl_send_async(L, case['sup'], case['req'], case['chunk'], xml)
+            bad = framing_problem(*sent) if sent else None
+            if bad:
+                ctx.fail('sent-framing:async-client', bad, case)
+        else:
+            _, sent = impl_send(L, case['sup'], case['req'], case['chunk'], xml)
+            bad = framing_problem({k_.lower(): v for k_, v in sent[0].items()}, sent[1]) if sent else None
+            if bad:
+                ctx.fail('sent-framing:sync-client', bad, case)
     elif k == 'keepalive':
         check_keepalive_sequence(ctx, L, B, [(a, b, unhx(c)) for a, b, c in case['steps']], case['chunk'])
     elif k == 'e2e':
@@ -968,6 +1084,14 @@ def run_headers(ctx, L, B):
                 check_header_case(ctx, L, B, n1 + q1 + ', ' + n2 + q2, SUPPORTED_SETS[0])
     for _ in range(ctx.n(3000, 40000)):
         check_header_case(ctx, L, B, gen_header(rng), rng.choice(SUPPORTED_SETS))
+    # wildcard and exclusion: every pair over {gzip, x-lz4, *, identity} x {-, q=0, q=0.5, q=1} through the real handler, POST and GET
+    core_elems = [n + q for n in ('gzip', 'x-lz4', '*', 'identity') for q in ('', ';q=0', ';q=0.5', ';q=1', '; q = 0')]
+    headers = core_elems + [a + ', ' + b for a in core_elems for b in core_elems]
+    stride = 1 if ctx.tier == 'thorough' else 3
+    for i, h in enumerate(headers):
+        for j, (method, sup) in enumerate((('POST', SUPPORTED_SETS[0]), ('GET', SUPPORTED_SETS[0]), ('POST', SUPPORTED_SETS[4]), ('GET', ['gzip']))):
+            if (i + j) % stride == 0 or '*' in h and ';q=0' in h.replace(' ', '').replace('q=0.5', ''):
+                check_respond_case(ctx, L, B, sup, 0 if j % 2 else 5, h, b'<answer/>', method=method)
     # the same decision through the real request handler (Content-Encoding it sends, body it writes), real codecs
     for _ in range(ctx.n(300, 3000)):
         h = gen_header(rng)
@@ -976,14 +1100,14 @@ def run_headers(ctx, L, B):
         if h is not None and (h != h.strip(' \t') or h == ''):
             continue   # http.server strips optional white space around the field value; an empty field is seen as ''
         check_respond_case(ctx, L, B, rng.choice(SUPPORTED_SETS[:5]), rng.choice([0, 0, 1, 7, 512]), h,
-                           gen_body(rng, rng.choice([0, 1, 50, 700])))
+                           gen_body(rng, rng.choice([0, 1, 50, 700])), method=rng.choice(['POST', 'POST', 'GET']))
 
 
-def check_respond_case(ctx, L, B, server_sup, chunk, ae, body):
-    case = {'kind': 'accept-encoding', 'via': 'do_POST', 'header': ae, 'supported': server_sup, 'chunk': chunk, 'body': hx(body)}
-    got, raw = impl_respond(L, server_sup, chunk, ae, body)
+def check_respond_case(ctx, L, B, server_sup, chunk, ae, body, method='POST'):
+    case = {'kind': 'accept-encoding', 'via': 'do_' + method, 'header': ae, 'supported': server_sup, 'chunk': chunk, 'body': hx(body)}
+    got, raw = impl_respond(L, server_sup, chunk, ae, body, method)
     if raw is None:
-        ctx.fail('do_POST:' + ('hang' if got == 'HANG' else 'no-response'), f'do_POST with Accept-Encoding {ae!r}: {got}', case)
+        ctx.fail(f'do_{method}:' + ('hang' if got == 'HANG' else 'no-response'), f'do_{method} with Accept-Encoding {ae!r}: {got}', case)
         return
     h, wire = raw
     ce = h.get('content-encoding')
@@ -1009,10 +1133,10 @@ def check_respond_case(ctx, L, B, server_sup, chunk, ae, body):
     if payload != body:
         ctx.fail('response:body-lost', f'decoded response differs from the body the component returned ({len(payload)} vs {len(body)} bytes)', case)
     ctx.case({'k': 'respond', 'h': ae, 's': server_sup, 'c': chunk, 'b': hx(body[:32])}, nontrivial=ce is not None)
-    ctx.count('do_POST:' + ('coded:' + ce if ce else 'identity') + (':chunked' if 'transfer-encoding' in h else ''))
+    ctx.count(f'do_{method}:' + ('coded:' + ce if ce else 'identity') + (':chunked' if 'transfer-encoding' in h else ''))
     if B is not None and q_in_model_domain(ae):
         with toys_installed(L):
-            got_toy, _ = impl_respond(L, server_sup, chunk, ae, body)
+            got_toy, _ = impl_respond(L, server_sup, chunk, ae, body, method)
         B.add(f'respond {esl(server_sup)} {chunk} {es(ae)} {hx(body)}', got_toy, 'respond == do_POST/_compress_if_supported (toy codec)', case)
 
 
@@ -1041,7 +1165,7 @@ def check_keepalive_sequence(ctx, L, B, steps, chunk):
     """several requests on ONE keep-alive connection (one handler instance): every response must follow the Accept-Encoding of
     its own request and the codings enabled at that time. steps = [(accept_encoding | None, enabled list, reply body)]"""
     case = {'kind': 'keepalive', 'chunk': chunk, 'steps': [[ae, sup, hx(body)] for ae, sup, body in steps]}
-    server = types.SimpleNamespace(dispatcher=None, supported_encodings=list(steps[0][1]), chunk_size=chunk, logger=mock.MagicMock())
+    server = types.SimpleNamespace(dispatcher=None, supported_encodings=list(steps[0][1]), chunk_size=chunk, logger=real_logger())
     calls = []
 
     class Comp:
@@ -1106,6 +1230,189 @@ def run_keepalive(ctx, L, B):
                 h = rng.choice(['gzip', 'identity', 'gzip;q=0', None, 'x-lz4, gzip;q=0.5'])
             steps.append((h, rng.choice(sups), gen_body(rng, rng.choice([0, 5, 200]))))
         check_keepalive_sequence(ctx, L, B, steps, rng.choice([0, 0, 3, 512]))
+
+
+# ------------------------------------------------------------------------------------------------ notification direction
+class _CapConn:
+    """stands in for http.client.HTTPConnection below the real SoapClient._send_soap_request of the provider"""
+    sock = object()
+
+    def __init__(self, netloc, log):
+        self.netloc, self.log = netloc, log
+
+    def request(self, method, path, body=None, headers=None):
+        self.log.append({'netloc': self.netloc, 'path': path, 'headers': {k.lower(): v for k, v in headers.items()}, 'body': body})
+
+    def getresponse(self):
+        r = FakeResponse([('content-length', '0')], b'')
+        r.status, r.reason = 200, 'OK'
+        r.getheaders = lambda: []
+        return r
+
+    def close(self):
+        pass
+
+
+def _cap_client_class(L, log):
+    class CapSoapClient(L.sc.SoapClient):
+        def connect(self):
+            self._has_connection_error = False
+            self._http_connection = _CapConn(self._netloc, log)
+            self.sock_name = ('127.0.0.1', 40000)
+    return CapSoapClient
+
+
+class NotifyProvider:
+    """a provider whose notifications go through the real SoapClient._send_soap_request into a recorder; no sockets"""
+    def __init__(self, L, chunk):
+        from sdc11073.dispatch.pathelementregistry import PathElementRegistry
+        from sdc11073.provider.providerimpl import provider_components_sync_factory
+        from tests.mockstuff import MockWsDiscovery, SomeDevice
+        self.L, self.log, self.n = L, [], 0
+        pc = provider_components_sync_factory()
+        pc.soap_client_class = _cap_client_class(L, self.log)
+        repo = os.environ.get('VERIF_REPO', '/repo')
+        srv = types.SimpleNamespace(dispatcher=PathElementRegistry(), server_port=50001, base_url='http://127.0.0.1:50001/',
+                                    started_evt=threading.Event())
+        self.dev = SomeDevice.from_mdib_file(MockWsDiscovery('127.0.0.1'), None, os.path.join(repo, 'tests', '70041_MDIB_Final.xml'),
+                                             max_subscription_duration=7200, components=pc, chunk_size=chunk)
+        self.dev.start_all(start_rtsample_loop=False, shared_http_server=srv)
+        self.subs = {}      # notify path -> (netloc, accept-encoding)
+
+    def subscribe(self, netloc, ae):
+        from sdc11073.namespaces import EventingActions
+        from sdc11073.xml_types import eventing_types as evt
+        from sdc11073.xml_types.addressing_types import HeaderInformationBlock
+        dev = self.dev
+        self.n += 1
+        ident = f'sub{self.n}'
+        nsh = dev.mdib.sdc_definitions.data_model.ns_helper
+        sr = evt.Subscribe()
+        sr.Delivery.Mode = f'{nsh.WSE.namespace}/DeliveryModes/Push'
+        sr.Delivery.NotifyTo.Address = f'http://{netloc}/{ident}'
+        sr.init_end_to()
+        sr.EndTo.Address = f'http://{netloc}/{ident}_end'
+        sr.Expires = 3600
+        sr.set_filter(dev.mdib.sdc_definitions.Actions.EpisodicMetricReport)
+        node = sr.as_etree_node(sr.NODETYPE, nsh.partial_map(nsh.WSE, nsh.MSG, nsh.PM))
+        inf = HeaderInformationBlock(action=EventingActions.Subscribe, addr_to=f'http://127.0.0.1:50001/{dev.path_prefix}/StateEvent')
+        xml = dev.msg_factory.mk_soap_message_etree_payload(inf, node).serialize()
+        h = http.client.HTTPMessage()
+        h['Host'] = '127.0.0.1:50001'
+        if ae is not None:
+            h['Accept-Encoding'] = ae
+        r = WD.call(dev._msg_converter.do_post, h, f'/{dev.path_prefix}/StateEvent', ('127.0.0.1', 40000), xml)
+        if r[0] == 'ok' and r[1][0] == 200:
+            self.subs[f'/{ident}'] = (netloc, ae)
+            self.subs[f'/{ident}_end'] = (netloc, ae)
+            return True
+        return False
+
+    def report(self):
+        """commit a metric change: one EpisodicMetricReport to every subscriber"""
+        import decimal
+        with self.dev.mdib.metric_state_transaction() as tr:
+            st = tr.get_state('0x34F00100')
+            if st.MetricValue is None:
+                st.mk_metric_value()
+            st.MetricValue.Value = decimal.Decimal(self.n) + (st.MetricValue.Value or 0)
+
+    def stop(self, send_end=True):
+        try:
+            self.dev.stop_all(send_subscription_end=send_end)
+        except Exception:  # noqa: BLE001
+            pass
+
+
+def check_notifications(ctx, L, B, prov, enabled, since, what):
+    """every message the provider sent since `since`: coded only with what that subscriber's Subscribe declared and what is enabled"""
+    for m in prov.log[since:]:
+        sub = prov.subs.get(m['path'])
+        if sub is None:
+            continue
+        netloc, ae = sub
+        h, body = m['headers'], m['body']
+        ce = h.get('content-encoding')
+        case = {'kind': 'notification', 'what': what, 'accept_encoding_of_subscribe': ae, 'enabled': enabled, 'netloc': netloc,
+                'same_netloc': sorted({str(a) for p_, (n_, a) in prov.subs.items() if n_ == netloc}), 'content_encoding': ce}
+        ctx.case({'k': 'notif', **case, 'p': m['path']}, nontrivial=ae is not None)
+        ctx.count(f'notification:{what}:' + ('coded' if ce else 'identity'))
+        bad = framing_problem(h, body)
+        if bad:
+            ctx.fail('sent-framing:sync-client', f'{what} to a subscriber: {bad}', case)
+        if ce is not None:
+            if ce not in enabled:
+                ctx.fail('choice:not-enabled', f'{what} coded with {ce!r}, enabled: {enabled}', case)
+            if not declares_acceptable(ae, ce):
+                others = [a for p_, (n_, a) in prov.subs.items() if n_ == netloc and a != ae and declares_acceptable(a, ce)]
+                if others:
+                    ctx.fail('notification:coding-of-other-subscription-of-same-netloc', f'{what} coded with {ce!r}: this subscription declared '
+                             f'{ae!r}, another subscription of the same netloc declared {others[0]!r} (soap client pool is keyed by netloc)', case)
+                else:
+                    ctx.fail('notification:coding-not-declared', f'{what} is sent with Content-Encoding {ce!r} to a subscriber whose Subscribe '
+                             f'request had Accept-Encoding {ae!r}', case)
+        payload = rfc_chunked(body) if 'transfer-encoding' in h else body
+        try:
+            if ce is not None and payload is not None:
+                payload = L.CH.decompress_payload(ce, payload)
+        except Exception as ex:  # noqa: BLE001
+            ctx.fail('response:not-decodable', f'{what}: {type(ex).__name__}', case)
+            continue
+        if payload is None or b'Envelope' not in payload:
+            ctx.fail('response:body-lost', f'{what}: decoded body is not the message', case)
+        if q_in_model_domain(ae) and len({str(a) for p_, (n_, a) in prov.subs.items() if n_ == netloc}) == 1:
+            B.add(f'choose {es(ae)} {esl(enabled)}', ('ok ' + es(ce)) if ce is not None else 'none',
+                  'choose(parseHeader(Accept-Encoding of the Subscribe request)) enabled == Content-Encoding of the notification', case)
+
+
+NOTIFY_AES = [None, 'gzip', 'x-lz4', 'identity', 'gzip;q=0', 'gzip;q=0, *', 'x-lz4, gzip;q=0.5', 'lz4;q=0.2, gzip;q=0.9', '*', 'gzip; q = 0, x-lz4',
+              'br, deflate', 'gzip;q=0.0, x-lz4;q=0.000', 'x-lz4;q=0, gzip']
+
+
+def run_notifications(ctx, L, B):
+    rng = ctx.subrng('notify')
+    avail = list(L.CH.available_encodings)
+    sups = [avail, ['gzip'], [a for a in avail if 'lz4' in a], [], ['lz4', 'gzip']]
+    port = [6000]
+    for chunk in ((0, 512) if ctx.tier == 'quick' else (0, 7, 512, 0)):
+        prov = NotifyProvider(L, chunk)
+        try:
+            for _ in range(ctx.n(5, 25)):
+                enabled = rng.choice(sups)
+                prov.dev.set_used_compression(*enabled)
+                for _ in range(rng.randint(1, 3)):
+                    port[0] += 1
+                    ae = rng.choice(NOTIFY_AES) if rng.random() < 0.8 else gen_header(rng)
+                    if ae is not None and (any(ord(c) > 255 or c in '\r\n\x00' for c in ae) or ae != ae.strip(' \t') or ae == ''):
+                        ae = rng.choice(NOTIFY_AES)
+                    for _ in range(rng.choice([1, 1, 2])):      # one peer = one netloc = one header on all its requests
+                        prov.subscribe(f'127.0.0.1:{port[0]}', ae)
+                since = len(prov.log)
+                prov.report()
+                check_notifications(ctx, L, B, prov, enabled, since, 'EpisodicMetricReport')
+                if rng.random() < 0.4:      # the operator changes the enabled codings while subscriptions exist
+                    enabled = rng.choice(sups)
+                    prov.dev.set_used_compression(*enabled)
+                    since = len(prov.log)
+                    prov.report()
+                    check_notifications(ctx, L, B, prov, enabled, since, 'EpisodicMetricReport')
+            since = len(prov.log)
+            prov.stop(send_end=True)
+            check_notifications(ctx, L, B, prov, enabled, since, 'SubscriptionEnd')
+        finally:
+            prov.stop(send_end=False)
+    # two subscriptions of ONE netloc with different Accept-Encoding headers: the second one gets the soap client of the first
+    prov = NotifyProvider(L, 0)
+    try:
+        prov.dev.set_used_compression(*avail)
+        prov.subscribe('127.0.0.1:5999', 'gzip')
+        prov.report()       # the soap client for the netloc is created with the first delivery: with what 'gzip' declared
+        prov.subscribe('127.0.0.1:5999', 'identity')
+        since = len(prov.log)
+        prov.report()
+        check_notifications(ctx, L, B, prov, avail, since, 'EpisodicMetricReport')
+    finally:
+        prov.stop(send_end=False)
 
 
 # ------------------------------------------------------------------------------------------------ configuration histories
@@ -1281,7 +1588,11 @@ def run_bodies(ctx, L, B):
         if xml[:40].lower().find(b'utf-8') >= 0 or rng.random() < 0.3:
             xml_a = xml if b'utf-8' in xml[:100].lower() else b"<?xml version='1.0' encoding='UTF-8'?>" + xml
             with toys_installed(L):
-                got_a = impl_send_async(L, sup, req, chunk, xml_a)
+                got_a, sent_a = impl_send_async(L, sup, req, chunk, xml_a)
+            if sent_a is not None:
+                bad = framing_problem(*sent_a)
+                if bad:
+                    ctx.fail('sent-framing:async-client', f'SoapClientAsync (chunk_size={chunk}): {bad}', {**case, 'xml': hx(xml_a), 'async': True})
             B.add(f'send {esl(sup)} {esl(req)} {chunk} {hx(xml_a)}', got_a, 'sendRequest == SoapClientAsync.async_post_message_to (toy codec)',
                   {**case, 'async': True})
             ctx.count('send-async')
@@ -1289,6 +1600,9 @@ def run_bodies(ctx, L, B):
         ctx.count('send:' + ('err' if sent is None else 'coded' if 'Content-Encoding' in sent[0] else 'identity'))
         if sent is not None:
             h, wire = sent
+            bad = framing_problem({k.lower(): v for k, v in h.items()}, wire)
+            if bad:
+                ctx.fail('sent-framing:sync-client', f'SoapClient._send_soap_request (chunk_size={chunk}): {bad}', case)
             check_request_case(ctx, L, B, h.get('transfer-encoding'), h.get('Content-Length'), h.get('Content-Encoding'),
                                rng.choice(SUP_READ), wire, response_too=False)
 
@@ -1333,6 +1647,11 @@ def check_e2e(ctx, L, xml, client_sup, req_encs, client_chunk, server_sup, serve
         ctx.fail('e2e:hang', 'request/response exchange does not terminate', case)
         return
     req_head = seen.get('request', b'').partition(b'\r\n\r\n')[0].decode('latin-1').lower()
+    if seen.get('request'):
+        # what http.client put on the wire for the soap client, judged like a strict peer would
+        bad = framing_problem(parse_head(seen['request'].partition(b'\r\n\r\n')[0])[1], seen['request'].partition(b'\r\n\r\n')[2])
+        if bad:
+            ctx.fail('sent-framing:sync-client', f'request on the wire (chunk_size={client_chunk}): {bad}', case)
     m = re.search(r'content-encoding: *([^\r\n]*)', req_head)
     req_ce = m.group(1) if m else None
     if req_ce is not None and (req_ce not in client_sup or req_ce not in req_encs):
@@ -1437,6 +1756,8 @@ def search(ctx):
             run_keepalive(ctx, L, B)
         if not ctx.failures:
             run_config_histories(ctx, L, B)
+        if not ctx.failures:
+            run_notifications(ctx, L, B)
         if not ctx.failures:
             run_end_to_end(ctx, L)
         if not ctx.failures:
